@@ -83,8 +83,19 @@ class VGen:
             elif k == "struct":
                 elems = []
                 for _ in range(r.randint(1, 4)):
-                    tk = self.pick(["elem", "elem", "enum", "struct"] if not enums else ["elem", "enum", "enum", "struct"])
-                    if tk == "enum" and enums:
+                    tk = self.pick(["elem", "elem", "enum", "struct", "other"] if not enums else
+                                   ["elem", "enum", "enum", "struct", "other"])
+                    if tk == "other":
+                        # the remaining kinds of element: declared string / array types, inline array, inline
+                        # enumeration, inline subrange, a declared subrange or string type with an initial value
+                        opts = ["ARRAY[0..%d] OF INT" % r.randint(1, 4), "(%s, %s)" % (self.fresh("iv"), self.fresh("iv")),
+                                "INT(0..%d)" % r.randint(1, 9)]
+                        opts += [x["name"] for x in strings] + [x["name"] for x in arrays]
+                        opts += ["%s := %d" % (x["name"], x["lo"]) for x in subranges]
+                        opts += ["%s := %s" % (x["name"], '"ab"' if x.get("wide") else "'ab'") for x in strings]
+                        elems.append([self.fresh("m"), self.pick(opts)])
+                        self.features.add("struct-elem-other-kinds")
+                    elif tk == "enum" and enums:
                         e_ = self.pick(enums)
                         if self.chance(0.5):
                             elems.append([self.fresh("m"), "%s := %s" % (e_["name"], self.pick(e_["values"]))])
